@@ -68,4 +68,4 @@ def all_harnesses():
 
 
 def harnesses(tier, seed):
-    return select(all_harnesses(), tier, seed, 6)
+    return select(all_harnesses(), tier, seed, 6, budget=1500)
